@@ -474,6 +474,12 @@ private:
                     more_ = false;
                     return;
                 }
+                if (JSONCONS_UNLIKELY(c > 1))
+                {
+                    ec = bson_errc::invalid_boolean_value;
+                    more_ = false;
+                    return;
+                }
                 visitor.bool_value(c != 0, semantic_tag::none, *this, ec);
                 more_ = !cursor_mode_;
                 break;
@@ -691,6 +697,12 @@ private:
             return string_view{};
         }
         offset += data.size();
+        if (JSONCONS_UNLIKELY(data[size - 1] != 0))
+        {
+            ec = bson_errc::string_not_null_terminated;
+            more_ = false;
+            return string_view{};
+        }
 
         state_stack_.back().pos += offset;
         return string_view{reinterpret_cast<const char*>(data.data()), data.size() - 1};
